@@ -188,6 +188,10 @@ def run(ctx):
     from sim.world import WorldLimit, WorldHang
     from cassandra import ProtocolVersion
     import cassandra.cluster as CC
+    import sim.env, sim.scen          # noqa
+    from sim import s5_handshake as H
+    run_history(((frozenset([4]),), 4, True, False, 0.0, (frozenset([6]),)), 1)      # warm-up: everything imported lazily is loaded now
+    H.settle_heap()
     if tuple(sorted(ProtocolVersion.SUPPORTED_VERSIONS, reverse=True)) != ALL or tuple(ProtocolVersion.BETA_VERSIONS) != BETA:
         raise Inconclusive("the driver's version tables changed (%r beta %r): the reference walk of this monitor must be revisited" % (
             ProtocolVersion.SUPPORTED_VERSIONS, ProtocolVersion.BETA_VERSIONS))
@@ -212,14 +216,15 @@ def run(ctx):
     order_rng = random.Random(ctx.seed)
     order_rng.shuffle(primary)
     order_rng.shuffle(secondary)
-    # the amount of work is bounded by the CPU time of this process (deterministic under load), with a generous wall-clock cap behind it
+    # the amount of work is fixed by counts (deterministic); the wall-clock cap only guards against a badly overloaded machine
     import time
-    cpu0, wall0 = time.process_time(), time.time()
-    budget = 14.0 if ctx.quick else 330.0
-    wall_cap = 150.0 if ctx.quick else 840.0
+    wall0 = time.time()
+    wall_cap = 75.0 if ctx.quick else 840.0
+    n_primary = 750 if ctx.quick else len(primary)        # per worker on quick (4 workers: 3000 of the 16384 cases, ~18 ms CPU each)
+    n_secondary = 60 if ctx.quick else len(secondary)
 
     def left(share):
-        return min(budget * share - (time.process_time() - cpu0), wall_cap * share - (time.time() - wall0))
+        return wall_cap * share - (time.time() - wall0)
     done_primary = done_secondary = True
 
     def one(case, seed):
@@ -260,10 +265,10 @@ def run(ctx):
             ctx.sample(info)
         return True
 
-    mine = primary[w::nw]
+    mine = primary[w::nw][:n_primary]
     quick = ctx.quick
     for k, case in enumerate(mine):
-        if left(0.72 if quick else 1.0) < 0 and k >= 50:
+        if left(0.8 if quick else 1.0) < 0 and k >= 50:
             done_primary = False
             if not quick:
                 ctx.note("primary space stopped by the budget after %d of %d cases of this worker" % (k, len(mine)))
@@ -273,15 +278,15 @@ def run(ctx):
             ctx.count("histories_with_server_side_beta_v5")
     # two-node histories and the allow_beta copy of the space
     rng = ctx.rng
-    n2 = ctx.scale(60, 6000)
+    n2 = ctx.scale(15, 6000)
     for k in range(n2):
-        if left(0.86 if quick else 1.0) < 0:
+        if left(0.9 if quick else 1.0) < 0:
             break
         sets = tuple(frozenset(v for v in ALL if rng.random() < rng.choice([0.15, 0.4, 0.7])) for _ in range(2))
         case = (sets, rng.choice(ALL), rng.random() < 0.35, rng.random() < 0.3, rng.choice([0.0, 0.0, 0.1]),
                 tuple(rng.choice(SERVER_BETA) for _ in range(2)))
         one(case, ctx.seed * 104729 + w * 1000003 + k)
-    mine2 = secondary[w::nw]
+    mine2 = secondary[w::nw][:n_secondary]
     for k, case in enumerate(mine2):
         if left(1.0) < 0:
             done_secondary = False
@@ -300,7 +305,7 @@ def run(ctx):
         ctx.exhaustive = bool(done_primary and ctx.counters.get("histories_over_budget", 0) == 0)
     if done_primary and done_secondary:
         ctx.note("allow_beta copy of the space completed by this worker")
-    # floors: what the CPU budget guarantees (quick ~25 ms CPU per history); thorough = the whole primary space
+    # floors: well below the fixed amount of work (quick 825 histories per worker); thorough = the whole primary space
     ctx.floor_distinct = 500 if quick else 16384
     k = 1 if quick else 16
     ctx.floor_counters = {"histories": 500 * k, "downgrade_steps": 200 * k, "connects_succeeded": 150 * k, "connects_failed": 100 * k,
